@@ -181,10 +181,16 @@ theorem context_chain_restored_top (econ : Ctx) (link : List Ctx) (r : Res) (m' 
     while an error trace was being generated. -/
 theorem guards_reset (msg : String) (m m' : M) (h : raiseInner msg m = .err m') :
     m'.loadDepth = 0 ∧ m'.restrictDestruct = 0 ∧ (m.inError = false → m'.inError = false ∧ m'.inMudlibHandler = false) := by
+  have hb : ∀ x : M, (hbOffStep x).loadDepth = x.loadDepth ∧ (hbOffStep x).restrictDestruct = x.restrictDestruct ∧
+      (hbOffStep x).inError = x.inError ∧ (hbOffStep x).inMudlibHandler = x.inMudlibHandler := by
+    intro x; unfold hbOffStep; split <;> exact ⟨rfl, rfl, rfl, rfl⟩
   simp only [raiseInner, longjmp] at h
   repeat' split at h
   all_goals first | cases h | skip
-  all_goals simp_all [resetGuards]
+  all_goals first
+    | (simp_all [resetGuards]; done)
+    | (obtain ⟨h1, h2, h3, h4⟩ := hb { resetGuards m with inError := false, inMudlibHandler := false }
+       refine ⟨h1, h2, fun _ => ⟨h3, h4⟩⟩)
 
 example : ∃ m', raiseInner "x" { loadDepth := 3, restrictDestruct := 7, inMudlibHandler := true, ctxs := [{ saveSp := 0, saveCsp := 0, saveCg := 0 }] } = .err m' ∧
     m'.loadDepth = 0 ∧ m'.restrictDestruct = 0 ∧ m'.inMudlibHandler = false := ⟨_, rfl, rfl, rfl, rfl⟩
